@@ -65,9 +65,53 @@ def l2_svdqn(run, rng, quick):
     return done
 
 
+def l2_krylov_invariant(run, rng, quick):
+    """conclusion of `RenoVerif.Krylov.krylov_exact` on the real routine: a start vector inside an invariant subspace of small
+    dimension m (the Lanczos recurrence closes after m steps) must be propagated EXACTLY (to rounding, far below the
+    routine's tolerance), for real and imaginary dt, real and complex Hermitian A, any block size."""
+    import scipy.linalg
+    from renormalizer.lib.krylov.krylov import expm_krylov
+    done = 0
+    for _ in range(40 if quick else 400):
+        n = int(rng.integers(4, 40))
+        m = int(rng.integers(1, min(n, 6) + 1))
+        cplx = bool(rng.random() < 0.5)
+        q, _ = np.linalg.qr(rng.normal(size=(n, n)) + (1j * rng.normal(size=(n, n)) if cplx else 0))
+        h1 = rng.normal(size=(m, m)) + (1j * rng.normal(size=(m, m)) if cplx else 0)
+        h2 = rng.normal(size=(n - m, n - m)) + (1j * rng.normal(size=(n - m, n - m)) if cplx else 0)
+        blk = scipy.linalg.block_diag((h1 + h1.conj().T) / 2, (h2 + h2.conj().T) / 2)
+        a = q @ blk @ q.conj().T
+        a = (a + a.conj().T) / 2
+        coef = rng.normal(size=m) + (1j * rng.normal(size=m) if (cplx or rng.random() < 0.5) else 0)
+        v = q[:, :m] @ coef
+        if not cplx and np.iscomplexobj(v) and rng.random() < 0.5:
+            v = v.real
+            if np.linalg.norm(v) < 1e-8:
+                continue
+        dt = float(rng.uniform(0.05, 1.5)) * (1j if rng.random() < 0.5 else -1.0) * (1 if rng.random() < 0.5 else -1)
+        bs = int(rng.choice([2, 3, 5, 50]))
+        try:
+            got, j = expm_krylov(lambda y: a @ y, dt, v.copy(), block_size=bs)
+        except Exception as e:  # noqa
+            run.violation(f"krylov:invariant-subspace:raises:{type(e).__name__}", dict(n=n, m=m, complex_A=cplx, dt=str(dt), block_size=bs, error=repr(e)[:200]))
+            continue
+        ref = scipy.linalg.expm(dt * a) @ v
+        err = float(np.linalg.norm(np.asarray(got).ravel() - ref) / np.linalg.norm(ref))
+        done += 1
+        run.count(f"krylov-invariant:m={m}:{'complexA' if cplx else 'realA'}:{'imag-dt' if np.iscomplex(dt) else 'real-dt'}")
+        if err > 1e-9:
+            run.violation("krylov:invariant-subspace:not-exact",
+                          dict(n=n, m=m, complex_A=cplx, dt=str(dt), block_size=bs, rel_err=err, krylov_steps=int(j),
+                               A=dict(re=a.real.tolist(), im=np.imag(a).tolist()), v=dict(re=np.real(v).tolist(), im=np.imag(v).tolist()),
+                               what="start vector in an invariant subspace of dimension m: the closed Lanczos recurrence is exact (RenoVerif.Krylov.krylov_exact)"))
+    run.cov["krylov_invariant_cases"] = done
+    return done
+
+
 if __name__ == "__main__":
     common.main_wrapper(lambda: generic_check.run_check(
-        "C18", "proof", ["RenoVerif/Props/C18.lean"], [l2_svdqn],
+        "C18", "proof", ["RenoVerif/Props/C18.lean", "RenoVerif/Props/C18Krylov.lean"], [l2_svdqn, l2_krylov_invariant],
         ["LAPACK SVD/QR/RQ/eigh and eigh_tridiagonal are parameters; their contracts are checked on every recorded call",
-         "the Krylov exponential (Lanczos with square roots) has no exact model: numerical contract test only (partial)"],
+         "the Krylov exponential: exactness on an invariant Krylov space is proved (polynomial intertwining) and checked on the real routine; the floating-point "
+         "Lanczos process and the error estimate for a non-closed recurrence have no exact model: numerical contract test (partial)"],
         "random label patterns (1-2 components, empty / one-sided sectors), random real/complex blocks, SVD economic/full and QR/RQ modes"))
